@@ -7,7 +7,7 @@ wide integers in big-integer form) and (d) their mutations (missing key, wrong m
 value that does not fit the field).  The harness runs every record on the real wrappers; wrapper / builder /
 proplist round trips have the identity as oracle (thin use of the specification, DESIGN §7)."""
 import json, os
-import lib
+import lib, etf_common as E
 
 PID = "C20"
 USIZE_MAX = (1 << 64) - 1
@@ -29,6 +29,37 @@ def int_of(t):
 def field_ints(term, names):
     kv = {bytes(k["b"]).decode(): v for k, v in term["kv"] if k.get("k") == "atom"}
     return [int_of(kv[n]) for n in names]
+
+
+def mapset_members(t):
+    """members and stored size of a MapSet struct term (%{__struct__: MapSet, map: {:set, n, %{member => []}}}), or None"""
+    try:
+        fields = {bytes(k["b"]).decode(): val for k, val in t["kv"] if k.get("k") == "atom"}
+        tag, n, inner = fields["map"]["e"]
+        return [k for k, _ in inner["kv"]], n
+    except (KeyError, TypeError, ValueError):
+        return None
+
+
+def mapset_twins_merged(term, back):
+    """deviation signature of C20-mapset-twins: the set that comes back is the set that went in except that members
+    which are distinct Erlang terms but compare == numerically (1 and 1.0) were merged into one of them; nothing
+    else is lost, nothing is added, and the stored size is the number of members that came back."""
+    a, b = mapset_members(term), mapset_members(back)
+    if a is None or b is None:
+        return False
+    (am, _), (bm, bn) = a, b
+
+    def cls(x, y):
+        return lib.same_value(x, y) or (E.is_number(x) and E.is_number(y) and E.num_value(x) == E.num_value(y))
+    twins = any(not lib.same_value(x, y) and cls(x, y) for i, x in enumerate(am) for y in am[i + 1:])
+    if not twins or len(bm) >= len(am) or not (E.is_number(bn) and E.num_value(bn) == len(bm)):
+        return False
+    if not all(any(lib.same_value(x, y) for x in am) for y in bm):          # nothing new
+        return False
+    if any(cls(x, y) for i, x in enumerate(bm) for y in bm[i + 1:]):       # one survivor per numeric class
+        return False
+    return all(any(cls(x, y) for y in bm) for x in am)                      # every member survives in its class
 
 
 def run(tier, seed):
@@ -152,12 +183,22 @@ def run(tier, seed):
     for o in by.get("wrapper", []):
         case = {"wrapper": o["wrapper"], "value": o["value"]}
         v.case("wrapper " + o["wrapper"] + o["value"])
+        if o.get("reject"):
+            if not o["direct_same"] or not o["wire_same_repr"]:
+                v.violation("a field value that does not fit is not rejected (a value is fabricated)", case)
+            continue
+        if o.get("alias"):
+            if not o["direct_same"]:
+                v.violation("a module named with its Elixir. prefix does not come back as that module", case)
+            continue
         if not o["direct_same"]:
             v.violation("wrapper -> term -> wrapper is not the identity", case)
         if o["wire_back_term"] is None:
             v.violation("wrapper is not recognised after its term went through encode / decode", case)
         elif not lib.same_value(o["term"], o["wire_back_term"]):
-            v.violation("wrapper comes back with another value after its term went through encode / decode", {**case, "back": o["wire_back_term"]})
+            c = {**case, "back": o["wire_back_term"]}
+            v.classify("wrapper comes back with another value after its term went through encode / decode", c,
+                       ["C20-mapset-twins"] if o["wrapper"] == "map_set" and mapset_twins_merged(o["term"], o["wire_back_term"]) else [])
 
     # ---- builders and proplist <-> map
     def pairs_of_list(t):
@@ -166,6 +207,15 @@ def run(tier, seed):
         return [[e["e"][0], e["e"][1]] for e in t["e"]]
 
     for o in by.get("builder", []):
+        if o.get("methods"):
+            v.case("builder methods")
+            if not lib.same_value(pairs_of_list(o["keyword"]), o["pairs"]):
+                v.violation("KeywordListBuilder (put / put_atom / put_flag / put_term / put_if / put_some / extend) did not build the pairs that were put, in order", {"built": o["keyword"], "expected_pairs": o["pairs"]})
+            if not lib.same_value(o["map"], {"k": "map", "kv": o["map_pairs"]}):
+                v.violation("AtomKeyMapBuilder (insert / insert_atom / insert_term / insert_if / insert_some / extend) did not build the entries that were inserted", {"built": o["map"], "expected_entries": o["map_pairs"]})
+            if not lib.same_value(o["struct"], {"k": "map", "kv": o["struct_pairs"]}):
+                v.violation("AtomKeyMapBuilder::build_struct did not add the __struct__ entry to the entries inserted", {"built": o["struct"], "expected_entries": o["struct_pairs"]})
+            continue
         case = {"builder_entries": o["n"]}
         v.case("builder " + str(o["n"]))
         want = o["pairs"]
